@@ -158,9 +158,13 @@ def structure_args(d, name, p, scale_max):
         r = U(args[i][1])
         if not r[1]:
             return args, "plain"
-        sc = d.choice([0, 0, 10, 30, 60])
-        r = (r[0], r[1], r[2] + sc, r[3])
         kk = d.int(3, 2 * p)
+        sc = d.choice([0, 0, 10, 30, 60, None, None, None])
+        if sc is None:
+            # magnitude tied to the closeness: the absolute gap x*2^-kk is about 2^(-5..30), "far apart" in absolute terms
+            r = (r[0], r[1], kk + d.int(-5, 30) - r[3], r[3])
+        else:
+            r = (r[0], r[1], r[2] + sc, r[3])
         t = d.choice([1, -1, 3, 0, 0, 0]) or (2 * d.int(0, 1 << d.int(1, 12)) + 1) * d.choice([1, -1])
         m2 = (r[1] << (kk + t.bit_length())) + t * r[1]
         kk += t.bit_length()
